@@ -666,7 +666,537 @@ def c19(tier):
                       assumptions=["Cp437Table is reference data (CPython cp437 codec)", "strings in TLA+-decided cases are <= 512 bytes"])
 
 
-CHECKS = {"C19": c19, "C03": c03, "C13": c13, "C14": c14, "C01": c01, "C02": c02, "C12": c12, "C17": c17}
+# ------------------------------------------------------------------ entry-read family
+def run_eread_scenarios(rep, wd, scenarios, label, neg_control=True):
+    progs = os.path.join(wd, label + "-scenarios.ndjson")
+    trace = os.path.join(wd, label + "-trace.ndjson")
+    vlib.write_ndjson(progs, scenarios)
+    vlib.run_harness(["eexec", progs, trace])
+    res = vlib.validate_segments("Trace_EntryRead.tla", "Trace_EntryRead.cfg", trace, wd, tag=label)
+    by_sc = {s["sc"]: {"sc": s["sc"], "hex": s["hex"] if len(s["hex"]) < 200000 else "(omitted)", "reads": s["reads"],
+                       "dmg": s.get("dmg"), "note": s.get("note")} for s in scenarios}
+    rep.add_tv(res, by_sc, label)
+    evs = vlib.read_ndjson(trace)
+    counts = rep.notes.setdefault("events_by_call", {})
+    for e in evs:
+        counts[e.get("ev", "?")] = counts.get(e.get("ev", "?"), 0) + 1
+    stats = rep.notes.setdefault("read_outcomes", {})
+    for e in evs:
+        if e.get("ev") == "EOpen":
+            k = "open:%s:%s:%s" % (e.get("via"), e.get("dmg"), e.get("r"))
+            stats[k] = stats.get(k, 0) + 1
+        if e.get("ev") == "EEnd":
+            k = "end:" + ("failed" if e.get("failed") else "eof-ok")
+            stats[k] = stats.get(k, 0) + 1
+    for s in scenarios:
+        rep.evaluations += len(s["reads"])
+        for q in s["reads"]:
+            rep.distinct.add(vlib.digest([s["hex"][:4000], q]))
+    if not rep.samples and scenarios:
+        rep.samples.append({"scenario": scenarios[0]["sc"], "reads": scenarios[0]["reads"][:3]})
+    rejected = {r["sc"] for r in res["rejections"]}
+    if neg_control:
+        for s in scenarios:
+            if s["sc"] in rejected:
+                continue
+            seg = [e for e in evs if e.get("sc") == s["sc"]]
+            ends = [i for i, e in enumerate(seg) if e.get("ev") == "EEnd" and e.get("eof") and not e.get("failed")]
+            if not ends:
+                continue
+
+            def mutate(es, k=ends[0]):
+                es[k]["crc"] = "%08x" % (int(es[k]["crc"], 16) ^ 0x10)
+                return "EEnd[%d].crc perturbed in accepted scenario %s" % (k, s["sc"])
+
+            nc = vlib.corrupt_and_expect_reject("Trace_EntryRead.tla", "Trace_EntryRead.cfg", seg, wd, mutate, tag=label + "-neg")
+            if nc:
+                rep.neg_controls.append(nc)
+                if not nc["rejected"]:
+                    raise ToolTrouble("negative control did not fire: " + nc["mutation"])
+            break
+    return res
+
+
+def mc_entryread(rep, wd, tier):
+    r = vlib.tlc_mc("EntryRead.tla", "MC_EntryRead.cfg", wd, timeout=300, tag="mc-er")
+    rep.add_mc(r, "MC_EntryRead.cfg")
+    if r["error"]:
+        rep.spec_violation(r, "MC_EntryRead.cfg")
+    # spec mutants: the checker must find each known-bad variant (non-vacuity of the invariants)
+    want = {"cipher_buf": "CipherSync", "no_mac": "MacAtEnd", "no_crc": "EofIntegrity", "zero_read_skips_crc": "EofIntegrity"}
+    for bug, inv in want.items():
+        if tier == "quick" and bug not in ("cipher_buf", "zero_read_skips_crc"):
+            continue
+        r = vlib.tlc_mc("EntryRead.tla", "MC_EntryRead_%s.cfg" % bug, wd, timeout=300, tag="mc-er-" + bug)
+        found = bool(r["error"]) and inv in r["error"]
+        rep.neg_controls.append({"spec_mutant": bug, "expected_violation": inv, "found": found})
+        if not found:
+            raise ToolTrouble("spec mutant %s not detected" % bug)
+
+
+def crc_hex(b):
+    import zlib
+    return "%08x" % (zlib.crc32(b) & 0xFFFFFFFF)
+
+
+def read_seeds(rnd, small=True):
+    """seed archives from the independent builder: (name, bytes, view, passwords)"""
+    import refzip
+    txt = b"The quick brown fox jumps over the lazy dog. " * (2 if small else 40)
+    rb = bytes(rnd.randrange(256) for _ in range(40 if small else 3000))
+    seeds = []
+    seeds.append(("plain", {"entries": [
+        {"name": b"stored.bin", "method": 0, "data": rb},
+        {"name": b"deflate.txt", "method": 8, "data": txt},
+        {"name": b"bzip2.txt", "method": 12, "data": txt},
+        {"name": b"empty", "method": 0, "data": b""}]}, []))
+    seeds.append(("zc", {"entries": [
+        {"name": b"zc-stored", "method": 0, "data": rb, "enc": ("zc", b"pass")},
+        {"name": b"zc-deflate", "method": 8, "data": txt, "enc": ("zc", b"pass")},
+        {"name": b"zc-dd", "method": 8, "data": txt, "enc": ("zc", b"pass"), "dd": "sig32", "time": 0x7b21}]}, [b"pass"]))
+    for ver in (1, 2):
+        seeds.append(("ae%d" % ver, {"entries": [
+            {"name": b"aes-stored-128", "method": 0, "data": rb, "enc": ("aes", ver, 1, b"pass")},
+            {"name": b"aes-deflate-256", "method": 8, "data": txt, "enc": ("aes", ver, 3, b"pass")},
+            {"name": b"aes-stored-192-17", "method": 0, "data": rb[:17], "enc": ("aes", ver, 2, b"pass")}]}, [b"pass"]))
+    out = []
+    for name, d, pws in seeds:
+        b, v = refzip.build(d)
+        out.append((name, b, v, pws))
+    return out
+
+
+def crate_seeds(wd, rnd):
+    """seed archives written by the crate itself (zstd, its own ZipCrypto); the expected content is
+    what the harness fed in (validated against the specification by Trace_Writer in C01)"""
+    dump = os.path.join(wd, "seeds")
+    os.makedirs(dump, exist_ok=True)
+    sc = {"sc": "seed", "dump": dump, "ops": [
+        {"op": "New"},
+        {"op": "StartFile", "name": "zstd.txt", "method": 93}, {"op": "Write", "data": {"len": 600, "seed": 1, "kind": "text"}},
+        {"op": "StartFile", "name": "deflate-large", "method": 8, "large": True}, {"op": "Write", "data": {"len": 300, "seed": 2, "kind": "text"}},
+        {"op": "StartFile", "name": "crypt", "method": 8, "enc": "pw2"}, {"op": "Write", "data": {"len": 200, "seed": 3, "kind": "text"}},
+        {"op": "StartFile", "name": "stored", "method": 0}, {"op": "Write", "data": {"len": 64, "seed": 4, "kind": "rand"}},
+        {"op": "AddDir", "name": "dir", "method": 0},
+        {"op": "Finish"}]}
+    progs = os.path.join(wd, "seed-programs.ndjson")
+    trace = os.path.join(wd, "seed-trace.ndjson")
+    vlib.write_ndjson(progs, [sc])
+    vlib.run_harness(["wexec", progs, trace])
+    evs = vlib.read_ndjson(trace)
+    path = next(e["path"] for e in evs if e.get("ev") == "Dumped")
+    b = open(path, "rb").read()
+    exps = [e["content"] for e in evs if e.get("ev") == "Entry"]
+    encs = [False, False, True, False, False]
+    return b, exps, encs
+
+
+SCHED_BUFS = [[1], [2], [3], [7], [0, 1], [0, 5, 0], [4096], [1, 0, 2, 0, 3], [65536], [5, 1]]
+SCHED_UNDER = [{}, {"max": 1}, {"max": 2}, {"max": 3}, {"max": 7}, {"list": [1, 5, 2]}, {"list": [3, 1]}]
+
+
+def c09(tier):
+    rep = Report("C09", tier)
+    wd = vlib.workdir("C09", tier)
+    vlib.build_harness()
+    mc_entryread(rep, wd, tier)
+    sd = vlib.seed()
+    rnd = random.Random(sd * 6151 + 9)
+    scs = []
+    seeds = read_seeds(rnd)
+    k = 0
+    for name, b, v, pws in seeds:
+        reads = []
+        for i, e in enumerate(v["entries"]):
+            exp = {"len": len(e["data"]), "crc": crc_hex(e["data"])}
+            enc = e["enc"] is not None
+            combos = [(bf, un) for bf in SCHED_BUFS for un in SCHED_UNDER]
+            if tier == "quick":
+                combos = rnd.sample(combos, 14)
+            for bf, un in combos:
+                q = {"i": i, "via": "seek", "bufs": bf, "under": un, "exp": exp}
+                if enc:
+                    q["pw"] = pws[0].hex()
+                    q["pwkind"] = "right"
+                reads.append(q)
+                if not enc and not (e["flags"] & 8):
+                    reads.append({"i": i, "via": "stream", "bufs": bf, "under": un, "exp": exp})
+        scs.append({"sc": "s-%s" % name, "hex": b.hex(), "reads": reads})
+        # one short read at every byte position of the archive (exhaustive for the small seeds)
+        step = 1 if (tier == "thorough" or name in ("plain", "zc")) else 3
+        for j in range(0, len(b), step):
+            reads = []
+            for i, e in enumerate(v["entries"]):
+                exp = {"len": len(e["data"]), "crc": crc_hex(e["data"])}
+                q = {"i": i, "via": "seek", "bufs": [4096], "under": {"at": j}, "exp": exp}
+                if e["enc"] is not None:
+                    q["pw"] = pws[0].hex()
+                    q["pwkind"] = "right"
+                reads.append(q)
+                if e["enc"] is None and not (e["flags"] & 8) and i == 0:
+                    reads.append({"i": len(v["entries"]) - 1, "via": "stream", "bufs": [4096], "under": {"at": j},
+                                  "exp": {"len": len(v["entries"][-1]["data"]), "crc": crc_hex(v["entries"][-1]["data"])}})
+            scs.append({"sc": "at-%s-%05d" % (name, j), "hex": b.hex(), "reads": reads})
+    cb, cexp, cenc = crate_seeds(wd, rnd)
+    reads = []
+    for i, exp in enumerate(cexp):
+        for bf, un in rnd.sample([(bf, un) for bf in SCHED_BUFS for un in SCHED_UNDER], 12 if tier == "quick" else 70):
+            q = {"i": i, "via": "seek", "bufs": bf, "under": un, "exp": exp}
+            if cenc[i]:
+                q["pw"] = b"pw2".hex()
+                q["pwkind"] = "right"
+            elif not any(cenc[:i]):      # a stream cannot get past an encrypted entry
+                reads.append({"i": i, "via": "stream", "bufs": bf, "under": un, "exp": exp})
+            reads.append(q)
+    scs.append({"sc": "s-crate", "hex": cb.hex(), "reads": reads})
+    run_eread_scenarios(rep, wd, scs, "sched")
+    # writer side: the finished bytes do not depend on how the sink accepts writes
+    base = [{"op": "StartFile", "name": "a", "method": 8}, {"op": "Write", "data": {"len": 500, "seed": 1, "kind": "text"}, "split": 7},
+            {"op": "StartFile", "name": "b/é", "method": 0, "large": True}, {"op": "Write", "data": {"len": 90, "seed": 2, "kind": "rand"}},
+            {"op": "StartFile", "name": "c", "method": 8, "enc": "k"}, {"op": "Write", "data": {"len": 70, "seed": 3, "kind": "text"}},
+            {"op": "StartFileAligned", "name": "al", "method": 0, "align": 64}, {"op": "Write", "data": "aligned"},
+            {"op": "AddDir", "name": "d", "method": 0}, {"op": "AddSymlink", "name": "l", "target": "a", "method": 0},
+            {"op": "SetComment", "c": "done"}, {"op": "Finish"}]
+    ws = []
+    total = 900
+    points = list(range(0, total, 1 if tier == "thorough" else 9))
+    for grp in range(0, len(points), 8):
+        ops = [{"op": "New"}] + base
+        for n, j in enumerate(points[grp:grp + 8]):
+            ops += [{"op": "New", "short_w_at": j}] + base + [{"op": "Compare", "a": 0, "b": n + 1}]
+        ws.append({"sc": "sw-at-%04d" % grp, "ops": ops})
+    for m in (1, 2, 3, 7, 100):
+        ops = [{"op": "New"}] + base + [{"op": "New", "short_w_max": m}] + base + [{"op": "Compare", "a": 0, "b": 1}]
+        ws.append({"sc": "sw-max-%d" % m, "ops": ops})
+    # the caller splitting its writes differently decodes to the same entries
+    for sp in (1, 2, 3, 50, 4096):
+        ops = [{"op": "New"}]
+        for m in (0, 8, 12, 93):
+            ops += [{"op": "StartFile", "name": "m%d" % m, "method": m}, {"op": "Write", "data": {"len": 3000, "seed": m + 1, "kind": "text"}, "split": sp}]
+        ops.append({"op": "Finish"})
+        ws.append({"sc": "split-%d" % sp, "ops": ops})
+    run_writer_programs(rep, wd, ws, "shortwrite", neg_control=False)
+    return rep.finish("model_checking",
+                      "MC_EntryRead: CipherSync/MacAtEnd/EofIntegrity/Accounting/ZeroAndSticky over all schedules (buffers {0,1,2,5}, all "
+                      "short-read choices, 4 crypto kinds, damage classes) with spec mutants detected; binding: caller buffer schedules x "
+                      "underlying short-read plans (uniform 1..7, cyclic lists, ONE short read at every byte position of small archives) on "
+                      "stored/deflate/bzip2/zstd, plain/ZipCrypto/AE-1/AE-2 entries through the seekable and the streaming reader; each read() "
+                      "is an event: stored entries follow EntryRead.tla's pipeline exactly (its invariants are evaluated on the real run), all "
+                      "entries must deliver the original bytes and sticky EOF; writer side: one short write at every byte position / capped "
+                      "writes give byte-identical archives (Compare events), caller-side splits validated by Trace_Writer",
+                      assumptions=["codec crates trusted", "long entries are summarised (final state only)"])
+
+
+def flip(b, pos, bit):
+    x = bytearray(b)
+    x[pos] ^= (1 << bit)
+    return bytes(x)
+
+
+def streamable(v, i):
+    return all(e["enc"] is None and not (e["flags"] & 8) for e in v["entries"][:i + 1])
+
+
+def c04(tier):
+    rep = Report("C04", tier)
+    wd = vlib.workdir("C04", tier)
+    vlib.build_harness()
+    mc_entryread(rep, wd, tier)
+    sd = vlib.seed()
+    rnd = random.Random(sd * 3571 + 4)
+    seeds = read_seeds(rnd)
+    scs = []
+    budget = 1400 if tier == "quick" else 60000
+    sites = []
+    for name, b, v, pws in seeds:
+        for i, e in enumerate(v["entries"]):
+            for pos in range(e["dstart"], e["dstart"] + e["csize"]):
+                for bit in range(8):
+                    sites.append((name, i, "data", pos, bit))
+            for kind, base in (("ccrc", e["chs"] + 16), ("lcrc", e["hdr"] + 14)):
+                for pos in range(base, base + 4):
+                    for bit in range(8):
+                        sites.append((name, i, kind, pos, bit))
+    crcsites = [s for s in sites if s[2] != "data"]
+    datasites = [s for s in sites if s[2] == "data"]
+    if tier == "quick":
+        chosen = rnd.sample(crcsites, min(len(crcsites), 500)) + rnd.sample(datasites, min(len(datasites), budget - 500))
+    else:
+        chosen = crcsites + (datasites if len(datasites) < budget else rnd.sample(datasites, budget))
+    byname = {n: (b, v, p) for n, b, v, p in seeds}
+    for (name, i, site, pos, bit) in chosen:
+        b, v, pws = byname[name]
+        e = v["entries"][i]
+        exp = {"len": len(e["data"]), "crc": crc_hex(e["data"])}
+        reads = []
+        bf = rnd.choice(SCHED_BUFS)
+        q = {"i": i, "via": "seek", "bufs": bf, "under": rnd.choice(SCHED_UNDER), "exp": exp,
+             "dmg": {"data": "data", "ccrc": "crc", "lcrc": "none"}[site]}
+        if e["enc"] is not None:
+            q["pw"] = pws[0].hex()
+            q["pwkind"] = "right"
+        reads.append(q)
+        if streamable(v, i):
+            reads.append({"i": i, "via": "stream", "bufs": rnd.choice(SCHED_BUFS), "under": rnd.choice(SCHED_UNDER), "exp": exp,
+                          "dmg": {"data": "data", "ccrc": "none", "lcrc": "crc"}[site]})
+        scs.append({"sc": "f-%s-%d-%s-%d.%d" % (name, i, site, pos, bit), "hex": flip(b, pos, bit).hex(), "reads": reads,
+                    "note": "bit %d of byte %d (%s of entry %d)" % (bit, pos, site, i)})
+    # multi-byte damage, payloads swapped between entries, truncated payloads
+    for n in range(60 if tier == "quick" else 2000):
+        name, b, v, pws = rnd.choice(seeds)
+        i = rnd.randrange(len(v["entries"]))
+        e = v["entries"][i]
+        if e["csize"] == 0:
+            continue
+        x = bytearray(b)
+        kind = rnd.choice(["multi", "zero", "swap"])
+        if kind == "multi":
+            for _ in range(rnd.randint(2, 6)):
+                x[e["dstart"] + rnd.randrange(e["csize"])] ^= rnd.randrange(1, 256)
+        elif kind == "zero":
+            for p in range(e["dstart"] + e["csize"] // 2, e["dstart"] + e["csize"]):
+                x[p] = 0
+        else:
+            j = rnd.randrange(len(v["entries"]))
+            o = v["entries"][j]
+            m = min(e["csize"], o["csize"])
+            if m == 0 or j == i:
+                continue
+            x[e["dstart"]:e["dstart"] + m], x[o["dstart"]:o["dstart"] + m] = b[o["dstart"]:o["dstart"] + m], b[e["dstart"]:e["dstart"] + m]
+        if bytes(x) == b:
+            continue
+        exp = {"len": len(e["data"]), "crc": crc_hex(e["data"])}
+        q = {"i": i, "via": "seek", "bufs": rnd.choice(SCHED_BUFS), "under": {}, "exp": exp, "dmg": "data"}
+        if e["enc"] is not None:
+            q["pw"] = pws[0].hex()
+            q["pwkind"] = "right"
+        reads = [q]
+        if streamable(v, i):
+            reads.append({"i": i, "via": "stream", "bufs": rnd.choice(SCHED_BUFS), "under": {}, "exp": exp, "dmg": "data"})
+        scs.append({"sc": "m-%s-%d-%s-%d" % (name, i, kind, n), "hex": bytes(x).hex(), "reads": reads})
+    run_eread_scenarios(rep, wd, scs, "damage")
+    rep.notes["damage_sites_total"] = len(sites)
+    rep.notes["exhaustive_crc_field_bits"] = (tier == "thorough") or len(crcsites) <= 500
+    return rep.finish("model_checking",
+                      "MC_EntryRead: EofIntegrity/TamperDetected for every damage class, crypto kind and read schedule (spec mutants no_crc and "
+                      "zero_read_skips_crc are found); binding: single-bit flips in every entry's data region and in the central and local CRC "
+                      "fields of seed archives (stored/deflate/bzip2, plain/ZipCrypto/AE-1/AE-2), multi-byte damage, zeroed tails, payloads "
+                      "swapped between entries; each damaged archive is read through the seekable and the streaming reader with caller "
+                      "schedules that include zero-length reads; the trace spec rejects any completed read whose CRC differs from the declared "
+                      "one (AE-2: from the original bytes) and, for stored entries, any run the EntryRead pipeline cannot explain",
+                      assumptions=["a damage that leaves the decoded bytes and CRC intact legitimately succeeds",
+                                   "quick samples the data-region bits; thorough enumerates them"])
+
+
+def crc_with_high_byte(v, rnd, n=24):
+    import zlib
+    while True:
+        d = bytes(rnd.randrange(256) for _ in range(n))
+        if (zlib.crc32(d) >> 24) & 0xFF == v:
+            return d
+
+
+def zc_check(pw, hdr12, want):
+    import refzip
+    z = refzip.ZipCrypto(pw)
+    last = 0
+    for cbyte in hdr12:
+        p = cbyte ^ z.stream()
+        z.update(p)
+        last = p
+    return last == want
+
+
+def c15(tier):
+    import refzip
+    rep = Report("C15", tier)
+    wd = vlib.workdir("C15", tier)
+    vlib.build_harness()
+    mc_entryread(rep, wd, tier)
+    sd = vlib.seed()
+    rnd = random.Random(sd * 2741 + 15)
+    # (a) decision table: all 256 check-byte values x {CRC-validated, time-validated (data descriptor)}
+    scs = []
+    vals = list(range(256))
+    per = 16
+    for dd in (False, True):
+        for g in range(0, 256, per):
+            ents, pwq = [], []
+            for k, v in enumerate(vals[g:g + per]):
+                pw = bytes(rnd.randrange(1, 256) for _ in range(rnd.randint(1, 9)))
+                if dd:
+                    data = bytes(rnd.randrange(256) for _ in range(20))
+                    e = {"name": b"t%03d" % v, "method": rnd.choice([0, 8]), "data": data, "enc": ("zc", pw), "dd": "sig32",
+                         "time": (v << 8) | rnd.randrange(256)}
+                else:
+                    e = {"name": b"c%03d" % v, "method": rnd.choice([0, 8]), "data": crc_with_high_byte(v, rnd), "enc": ("zc", pw)}
+                ents.append(e)
+            b, view = refzip.build({"entries": ents})
+            for k, e in enumerate(view["entries"]):
+                pw = ents[k]["enc"][1]
+                hdr = b[e["dstart"]:e["dstart"] + 12]
+                want = vals[g + k]
+                wrong_no, wrong_yes = None, None
+                t = 0
+                while (wrong_no is None or wrong_yes is None) and t < 20000:
+                    cand = b"w%d" % t
+                    t += 1
+                    if zc_check(cand, hdr, want):
+                        wrong_yes = wrong_yes or cand
+                    else:
+                        wrong_no = wrong_no or cand
+                pwq.append({"i": k, "kind": "none", "pw": ""})
+                pwq.append({"i": k, "kind": "right", "pw": pw.hex()})
+                pwq.append({"i": k, "kind": "wrong", "pw": wrong_no.hex()})
+                if wrong_yes:
+                    pwq.append({"i": k, "kind": "wrong", "pw": wrong_yes.hex()})      # passes the 1-byte check: must fail on read
+                if k % 4 == 0:
+                    pwq.append({"i": k, "kind": "right", "pw": pw.hex(), "by_name": ents[k]["name"].decode()})
+            scs.append({"sc": "tab-%s-%03d" % ("time" if dd else "crc", g), "hex": b.hex(), "expect": gen_reader.expect_of(view),
+                        "pwq": pwq, "pws": [e["enc"][1].hex() for e in ents]})
+    # Info-ZIP as a third producer, when installed (incl. its streamed, time-validated variant)
+    import shutil, subprocess, tempfile
+    if shutil.which("zip"):
+        td = tempfile.mkdtemp(dir=wd)
+        for k in range(3 if tier == "quick" else 12):
+            data = bytes(rnd.randrange(256) for _ in range(rnd.randint(1, 3000)))
+            pw = "pw%d" % k
+            zp = os.path.join(td, "iz%d.zip" % k)
+            if k % 2 == 0:
+                with open(os.path.join(td, "f.bin"), "wb") as f:
+                    f.write(data)
+                subprocess.run(["zip", "-q", "-j", "-P", pw, zp, os.path.join(td, "f.bin")], check=False)
+            else:
+                subprocess.run(["zip", "-q", "-P", pw, zp, "-"], input=data, check=False)
+            if os.path.exists(zp):
+                b = open(zp, "rb").read()
+                scs.append({"sc": "infozip-%d" % k, "hex": b.hex(), "expect": [{"len": len(data), "crc": crc_hex(data)}], "pws": [pw.encode().hex()],
+                            "pwq": [{"i": 0, "kind": "none", "pw": ""}, {"i": 0, "kind": "right", "pw": pw.encode().hex()},
+                                    {"i": 0, "kind": "wrong", "pw": b"nope".hex()}]})
+        rep.notes["infozip"] = "present"
+    else:
+        rep.notes["infozip"] = "absent"
+    run_reader_scenarios(rep, wd, scs, "table")
+    # (b) entries the crate itself encrypts: an independent ZipCrypto (harness lexer) must decrypt them, the plaintext must not
+    #     appear in the file, and they must read back (Trace_Writer)
+    g = gen_writer.Gen(sd * 17 + 15, tier)
+    ws = []
+    for i in range(60 if tier == "quick" else 2500):
+        ops = [{"op": "New"}]
+        for _ in range(g.r.randint(1, 4)):
+            if g.r.random() < 0.7:
+                pw = g.r.choice(["", "p", {"hex": "00ff80"}, {"len": 1024, "seed": i + 1, "kind": "rand"}, "pässwörd", {"len": g.r.randint(1, 40), "seed": i, "kind": "rand"}])
+                o = g.opts(methods=[0, 8, 12, 93])
+                o["enc"] = pw
+                ops.append(dict(o, op="StartFile", name=g.name()))
+                for _ in range(g.r.randint(0, 2)):
+                    ops.append({"op": "Write", "data": g.payload()})
+            else:
+                ops.append(dict(g.opts(), op="StartFile", name=g.name()))
+                ops.append({"op": "Write", "data": g.payload()})
+        ops.append({"op": "Finish"})
+        ws.append({"sc": "enc%05d" % i, "ops": ops})
+    run_writer_programs(rep, wd, ws, "crate-encrypts", referees=True)
+    # (c) reading under schedules with the right / a wrong / no password
+    es = []
+    for name, b, v, pws in read_seeds(rnd):
+        if name != "zc":
+            continue
+        reads = []
+        for i, e in enumerate(v["entries"]):
+            exp = {"len": len(e["data"]), "crc": crc_hex(e["data"])}
+            for bf, un in rnd.sample([(bf, un) for bf in SCHED_BUFS for un in SCHED_UNDER], 10):
+                reads.append({"i": i, "via": "seek", "bufs": bf, "under": un, "exp": exp, "pw": pws[0].hex(), "pwkind": "right"})
+                reads.append({"i": i, "via": "seek", "bufs": bf, "under": un, "exp": exp, "pw": b"Pass".hex(), "pwkind": "wrong"})
+        es.append({"sc": "zc-sched", "hex": b.hex(), "reads": reads})
+    run_eread_scenarios(rep, wd, es, "zc-reads")
+    return rep.finish("model_checking",
+                      "ZipOpen!OpenDecision (password table) + EntryRead!CipherSync model-checked; binding: all 256 check-byte values x "
+                      "{CRC-validated, time-validated/data-descriptor} entries from the independent builder's own ZipCrypto, each opened with no "
+                      "password, the right one, a wrong one that fails the check byte and a wrong one that passes it (must then fail on read); "
+                      "Info-ZIP zip -P archives when installed; entries encrypted by the crate (empty, binary, 1 KiB, non-ASCII passwords; all "
+                      "methods) are decrypted by the harness's independent implementation (and CPython/unzip as referees), must differ from the "
+                      "plaintext in the file and read back; reads under short-read schedules with right and wrong passwords",
+                      assumptions=["the key schedule itself is checked by agreement of three implementations (crate, harness, refzip/CPython/Info-ZIP), not by the spec"])
+
+
+def c16(tier):
+    import refzip
+    rep = Report("C16", tier)
+    wd = vlib.workdir("C16", tier)
+    vlib.build_harness()
+    mc_entryread(rep, wd, "thorough")
+    sd = vlib.seed()
+    rnd = random.Random(sd * 1999 + 16)
+    combos = [(ver, st, m, ln) for ver in (1, 2) for st in (1, 2, 3) for m in (0, 8, 12) for ln in (0, 1, 15, 16, 17, 33, 1000)]
+    scs, es = [], []
+    per = 9
+    for g in range(0, len(combos), per):
+        ents = []
+        for (ver, st, m, ln) in combos[g:g + per]:
+            pw = rnd.choice([b"pw", b"", b"\x00\xff", bytes(rnd.randrange(256) for _ in range(64)), "pässwort".encode()])
+            data = bytes(rnd.randrange(256) for _ in range(ln)) if m == 0 else (b"aes text %d " % ln) * (ln // 10 + 1)
+            data = data[:ln]
+            ents.append({"name": b"ae%d-s%d-m%d-l%d" % (ver, st, m, ln), "method": m, "data": data, "enc": ("aes", ver, st, pw)})
+        b, view = refzip.build({"entries": ents})
+        pwq = []
+        for k, e in enumerate(ents):
+            pw = e["enc"][3]
+            pwq += [{"i": k, "kind": "none", "pw": ""}, {"i": k, "kind": "right", "pw": pw.hex()},
+                    {"i": k, "kind": "wrong", "pw": (pw + b"x").hex()}]
+        scs.append({"sc": "aes-%03d" % g, "hex": b.hex(), "expect": gen_reader.expect_of(view), "pwq": pwq})
+        # schedules with the right password
+        reads = []
+        for k, e in enumerate(ents):
+            exp = {"len": len(e["data"]), "crc": crc_hex(e["data"])}
+            for bf, un in rnd.sample([(bf, un) for bf in SCHED_BUFS for un in SCHED_UNDER], 3 if tier == "quick" else 20):
+                reads.append({"i": k, "via": "seek", "bufs": bf, "under": un, "exp": exp, "pw": e["enc"][3].hex(), "pwkind": "right"})
+        es.append({"sc": "aes-sched-%03d" % g, "hex": b.hex(), "reads": reads})
+    # the crate's own fixture (written by a third-party tool)
+    fx = open("/repo/tests/data/aes_archive.zip", "rb").read()
+    scs.append({"sc": "fixture", "hex": fx.hex(), "expect": [],
+                "pwq": [{"i": k, "kind": kd, "pw": (b"helloworld" if kd == "right" else b"wrong").hex() if kd != "none" else ""}
+                        for k in range(4) for kd in ("none", "wrong")]})
+    run_reader_scenarios(rep, wd, scs, "aes-open")
+    # tampering: every single-bit flip of salt / verifier / ciphertext / MAC of small entries; wrong CRC under AE-1 vs AE-2
+    for ver in (1, 2):
+        for st in (1, 2, 3):
+            for m, ln in ((0, 1), (0, 17), (8, 40)):
+                data = bytes(rnd.randrange(256) for _ in range(ln)) if m == 0 else b"tamper me " * 4
+                ents = [{"name": b"victim", "method": m, "data": data, "enc": ("aes", ver, st, b"pw")},
+                        {"name": b"neighbour", "method": 0, "data": b"untouched"}]
+                b, view = refzip.build({"entries": ents})
+                e = view["entries"][0]
+                exp = {"len": len(data), "crc": crc_hex(data)}
+                regs = e["regions"]
+                sites = []
+                for rname, (a, z) in regs.items():
+                    for pos in range(a, z):
+                        for bit in range(8):
+                            sites.append((rname, e["dstart"] + pos, bit))
+                if tier == "quick":
+                    sites = rnd.sample(sites, min(len(sites), 60))
+                for (rname, pos, bit) in sites:
+                    dm = {"salt": "salt", "verifier": "verifier", "ct": "data", "mac": "mac"}[rname]
+                    es.append({"sc": "t-ae%d-s%d-m%d-l%d-%s-%d.%d" % (ver, st, m, ln, rname, pos, bit), "hex": flip(b, pos, bit).hex(),
+                               "reads": [{"i": 0, "via": "seek", "bufs": rnd.choice(SCHED_BUFS), "under": rnd.choice(SCHED_UNDER), "exp": exp,
+                                          "pw": b"pw".hex(), "pwkind": "right", "dmg": dm}]})
+                # wrong CRC field
+                for pos in range(e["chs"] + 16, e["chs"] + 20):
+                    es.append({"sc": "t-ae%d-s%d-m%d-l%d-crc-%d" % (ver, st, m, ln, pos), "hex": flip(b, pos, rnd.randrange(8)).hex(),
+                               "reads": [{"i": 0, "via": "seek", "bufs": rnd.choice(SCHED_BUFS), "under": {}, "exp": exp,
+                                          "pw": b"pw".hex(), "pwkind": "right", "dmg": "crc"}]})
+    run_eread_scenarios(rep, wd, es, "aes-reads")
+    return rep.finish("model_checking",
+                      "EntryRead!MacAtEnd/TamperDetected/EofIntegrity (AE-1 CRC enforced, AE-2 ignored) model-checked with the no_mac/no_crc spec "
+                      "mutants found; binding: entries built by the independent encryptor (own AES, CTR-LE, PBKDF2-HMAC-SHA1, HMAC-SHA1-80) for every "
+                      "(version, strength, inner method, length in {0,1,15,16,17,33,1000}); open decisions for no/right/wrong password against "
+                      "ZipOpen!OpenDecision; reads under short-read schedules; every single-bit flip of salt, verifier, ciphertext and authentication "
+                      "code of small entries and CRC-field flips (AE-1 must fail, AE-2 must pass) validated against EntryRead.tla",
+                      assumptions=["empty entries are exempt from the MAC claim (as the property says)", "quick samples the bit flips; thorough enumerates them"])
+
+
+CHECKS = {"C04": c04, "C15": c15, "C16": c16, "C09": c09, "C19": c19, "C03": c03, "C13": c13, "C14": c14, "C01": c01, "C02": c02, "C12": c12, "C17": c17}
 
 
 def setup():
